@@ -57,6 +57,10 @@ def run(tier, seed):
             what = ("rejects-wellformed", "the reader fails on an input the reference grammar accepts: %s" % t["msg"][:120])
         elif t["ref_ok"] and not t["roundtrip"]:
             what = ("roundtrip", "re-encoding the decoded element does not reproduce its bytes")
+        elif t.get("cmp"):
+            c = t["cmp"][0]
+            kind = "tlv_iter" if c.startswith("tlv_iter") else "bytes_iter" if "bytes_iter" in c else "to_tlv" if "to_tlv" in c else "cb-writer" if "_cb" in c or "cb writer" in c else "accessor"
+            what = (kind, "an accessor disagrees with the reference tree: %s" % "; ".join(t["cmp"])[:300])
         if what:
             lead = t["bytes"][0] if t["bytes"] else -1
             ck.violation("C16|%s|%s|type%d" % (what[0], t["kind"], lead % 32 if lead >= 0 else -1), what[1] + " on input " + json.dumps(t["bytes"][:40]), {"input": t})
